@@ -4,10 +4,17 @@ import Gomjml.Core.Cache
 namespace Gomjml.Props.C20
 open Gomjml.Cli
 
+/-- success with `-o`: the output file holds exactly the library's bytes, nothing goes to standard output or standard error,
+    exit 0 -/
 theorem C20_success_file (html : String) : cli ⟨true, .ok html, true, true⟩ = ⟨0, "", false, some html⟩ := cli_success_file html
+/-- success without `-o`: standard output is exactly the library's bytes, no file is touched, exit 0 -/
 theorem C20_success_stdout (html : String) (w : Bool) : cli ⟨true, .ok html, false, w⟩ = ⟨0, html, false, none⟩ := cli_success_stdout html w
+/-- any error — unreadable input, an ordinary error, a validation error (HTML present!) — gives a non-zero exit, a message on
+    standard error, nothing on standard output, and the output file is neither created nor overwritten -/
 theorem C20_error (i : In) (h : i.readOk = false ∨ (∀ html, i.lib ≠ .ok html)) :
     (cli i).exit ≠ 0 ∧ (cli i).stderr = true ∧ (cli i).file = none ∧ (cli i).stdout = "" := cli_error i h
+/-- conversely: exit 0 only when the library returned HTML without any error, and then the bytes delivered (file or standard
+    output) are the library's -/
 theorem C20_exit0 (i : In) (h : (cli i).exit = 0) :
     ∃ html, i.lib = .ok html ∧ ((cli i).file = some html ∨ (cli i).stdout = html) := cli_exit0 i h
 
